@@ -1,5 +1,6 @@
 import SkopsModel.Properties.C01
 import SkopsModel.Generated.Trust
+import SkopsModel.Generated.Facts
 /-!
 # C11 — Nothing outside the documented families is trusted by default
 -/
@@ -166,5 +167,25 @@ theorem defaults_not_dangerous : ∀ x ∈ Generated.defaultIds, x ∉ Generated
 
 /-- generated side-condition used by the general part -/
 theorem table_vouched : Generated.table.Vouched = true := C01.table_vouched
+
+/-! ## the default lists come from registries other packages can write to -/
+
+/-- what the import-time construction of the default lists takes from a registry: the names with the library's prefix -/
+def defaultsFrom (pfx : String) (registry : List String) : List String := registry.filter (fun n => pfx.toList.isPrefixOf n.toList)
+
+/-- the two default lists that are built from registries other packages can write to (`all_estimators()` walks the public
+scikit-learn modules, `numpy.sctypeDict` is a plain dict) are filtered by the library's own module prefix in the current
+source … -/
+theorem registries_filtered :
+    Generated.facts.estimatorNamesFilteredByPrefix = true ∧ Generated.facts.scalarNamesFilteredByPrefix = true := by decide +kernel
+
+/-- … so that, whatever a foreign package registered before `skops.io` was imported, a name of another package never
+becomes a default -/
+theorem foreign_registration_not_default (pfx : String) (registry : List String) (n : String)
+    (h : n ∈ defaultsFrom pfx registry) : pfx.toList.isPrefixOf n.toList = true := by
+  unfold defaultsFrom at h
+  exact (List.mem_filter.mp h).2
+
+example : defaultsFrom "sklearn." ["sklearn.dummy.DummyClassifier", "accel_patch.FastDummy"] = ["sklearn.dummy.DummyClassifier"] := by decide +kernel
 
 end Skops.Properties.C11
